@@ -466,12 +466,27 @@ func init() {
 			return s
 		},
 		"internal/stringslite.HasPrefix": func(fr *frame, args []value) value {
+			if isSym(args[0]) || isSym(args[1]) {
+				return fr.e.symNative("strings.HasPrefix", args)
+			}
 			return strings.HasPrefix(args[0].(string), args[1].(string))
 		},
+		"internal/stringslite.HasSuffix": func(fr *frame, args []value) value {
+			if isSym(args[0]) || isSym(args[1]) {
+				return fr.e.symNative("strings.HasSuffix", args)
+			}
+			return strings.HasSuffix(args[0].(string), args[1].(string))
+		},
 		"internal/stringslite.Index": func(fr *frame, args []value) value {
+			if isSym(args[0]) || isSym(args[1]) {
+				return fr.e.symNative("strings.Index", args)
+			}
 			return strings.Index(args[0].(string), args[1].(string))
 		},
 		"internal/stringslite.IndexByte": func(fr *frame, args []value) value {
+			if isSym(args[0]) || isSym(args[1]) {
+				return fr.e.symNative("strings.IndexByte", args)
+			}
 			return strings.IndexByte(args[0].(string), args[1].(byte))
 		},
 		"unicode/utf8.DecodeRuneInString": func(fr *frame, args []value) value {
